@@ -94,7 +94,7 @@ def _check_chunk(cases):
             ey = [expr.ev(e) for e in s["y"]]
             label = s["label"]
             cands = [k for k, a in enumerate(arts) if a["kind"] in ("line", "scatter") and matches(ex, ey, a, c["unordered"])]
-            lab = names[label[1] - 1] if isinstance(label, list) else None
+            lab = (names[label[1] - 1] + (label[2] if len(label) > 2 else "")) if isinstance(label, list) else None
             if lab is not None:
                 labelled = [k for k in cands if arts[k]["label"] == lab]
                 if not labelled:
@@ -182,8 +182,8 @@ def run(ctx):
     ctx.rule = ("case = (dataset with missing cells or boundary-straddling times, diagram, option variant): standard line/bar plots, obsfcst, qq, "
                 "scatter, against, sort, hist, freq, error, performance; non-trivial = the expected series has more than one point")
     ctx.assumptions = ["figures are compared as matplotlib artist data (Line2D x/y, bar heights), not pixels",
-                       "diagrams not yet transcribed into Diagrams.tla: cond, invreliability, droc, "
-                       "spreadskill, timeseries, taylor, murphy, economicvalue, bsdecomp, igncontrib, fss, autocorr/autocov, meteo, change, map, rank, impact"]
+                       "diagrams not yet transcribed into Diagrams.tla: invreliability, droc, "
+                       "spreadskill, taylor, murphy, economicvalue, bsdecomp, igncontrib, fss, autocorr/autocov, meteo, change, map, rank, impact"]
     res = tlc.run("MC_Diagrams", "MC_Diagrams_C12", tag=ctx.pid + "_det", timeout_s=1500)
     ctx.add_tlc("MC_Diagrams/C12", res, {"Family": "C12"})
     cases = res.emitted
